@@ -46,6 +46,11 @@ def _parse(
     parsed = base_parse(text, **options)
 
     if isinstance(parsed, datetime.datetime):
+        if parsed.tzinfo is not None:
+            # instance() resolves a foreign tzinfo (e.g. dateutil's tzlocal())
+            # for the parsed datetime itself
+            return pendulum.instance(parsed)
+
         return pendulum.datetime(
             parsed.year,
             parsed.month,
@@ -54,7 +59,7 @@ def _parse(
             parsed.minute,
             parsed.second,
             parsed.microsecond,
-            tz=parsed.tzinfo or options.get("tz", UTC),
+            tz=options.get("tz", UTC),
         )
 
     if isinstance(parsed, datetime.date):
